@@ -679,6 +679,7 @@ def main(tier, seed):
         stats = {"histories": 0, "runs": 0, "runs_checked": 0, "faulted_runs_fired": 0,
                  "failing_runs": 0, "api_ops": 0, "perturb_ops": 0, "revisit_after_other": 0,
                  "revisit_after_failed_or_aborted": 0, "aba": 0, "reuse_namespace_runs": 0,
+                 "in_place_runs": 0, "ambient_varied_runs": 0, "ambient_axes": {},
                  "faults_fired": {}}
         sigs = set()
         pairs = set()
@@ -707,6 +708,12 @@ def main(tier, seed):
                     stats["runs"] += 1
                     if op.get("entry") == "main_driver_reuse":
                         stats["reuse_namespace_runs"] += 1
+                    if op.get("stable"):
+                        stats["in_place_runs"] += 1
+                    if op.get("ambient"):
+                        stats["ambient_varied_runs"] += 1
+                        for ak in op["ambient"]:
+                            stats["ambient_axes"][ak] = stats["ambient_axes"].get(ak, 0) + 1
                     ck = corpus.cfg_key(op.get("cfg") or h["pool"][op["cfg_index"]])
                     aborted = bool(op.get("faults") and o.get("fired"))
                     if aborted:
@@ -805,7 +812,11 @@ def main(tier, seed):
         "faults_fired": dict(sorted(stats["faults_fired"].items())),
         "reach_probes": {k: stats[k] for k in (
             "runs_checked", "faulted_runs_fired", "failing_runs", "api_ops", "perturb_ops",
-            "revisit_after_other", "revisit_after_failed_or_aborted", "reuse_namespace_runs")},
+            "revisit_after_other", "revisit_after_failed_or_aborted", "reuse_namespace_runs",
+            "in_place_runs", "ambient_varied_runs")},
+        "ambient_axes_varied": stats["ambient_axes"],
+        "cfg_families": len(families),
+        "family_sweep_histories": sum(1 for h in hists if h["id"].startswith("hf")),
         "distinct_states": {"measure": "distinct (previous operation kind -> revisited cfg) "
                                        "pairs + distinct non-trivial histories",
                             "value": len(pairs) + len(sigs)},
